@@ -241,13 +241,28 @@ end AcVerif
 
 namespace AcVerif
 
+/-- Decision constants of the builders, extracted from the source on every run
+(Tie C) and handed to the model, so that a retuned heuristic changes the model
+in step with the code.  Defaults are the values of the pinned tree. -/
+structure Consts where
+  patternLimit : Nat := 128          -- packed/api.rs PATTERN_LIMIT
+  teddyPatternLimit : Nat := 64      -- teddy/builder.rs: patlimit && patterns.len() > 64
+  teddyMask1Limit : Nat := 16        -- mask_len == 1 && patterns.len() > 16
+  teddyBeefy : Nat := 32             -- beefy = patterns.len() > 32
+  prePackedPatlen : Nat := 16        -- prefilter.rs: patlen <= 16
+  preRankSlack : Nat := 50           -- rank_sum + 50
+  bufferDefaultCap : Nat := 64 * 1024
+  bufferMinFactor : Nat := 8
+  autoDfaLimit : Nat := 100
+deriving Repr, Inhabited
+
 /-- `teddy::Builder::build_imp` on x86_64: which variant is built, if any -/
-def teddyChoice (only256 onlyFat : Option Bool) (patlimit : Bool) (npat minLen : Nat)
+def teddyChoice (k : Consts) (only256 onlyFat : Option Bool) (patlimit : Bool) (npat minLen : Nat)
     (avx2 ssse3 : Bool) : Option TeddyVariant :=
-  if patlimit && npat > 64 then none
+  if patlimit && npat > k.teddyPatternLimit then none
   else
     let maskLen := min 4 minLen
-    let beefy := npat > 32
+    let beefy := npat > k.teddyBeefy
     let hasSsse3 := avx2 || ssse3
     let useAvx2? : Option Bool :=
       match only256 with
@@ -265,23 +280,23 @@ def teddyChoice (only256 onlyFat : Option Bool) (patlimit : Bool) (npat minLen :
       match fat? with
       | none => none
       | some fat =>
-        if patlimit && maskLen == 1 && npat > 16 then none
+        if patlimit && maskLen == 1 && npat > k.teddyMask1Limit then none
         else if maskLen == 0 then none
         else if !useAvx2 then some .slim128
         else if fat then some .fat256 else some .slim256
 
 /-- `packed::Builder::{add*, build}`: `none` = no searcher.  `force`:
 `some true` = only Teddy, `some false` = only Rabin-Karp, `none` = default. -/
-def packedBuild (kind : PKind) (pats : List PBytes) (force : Option Bool)
+def packedBuild (k : Consts) (kind : PKind) (pats : List PBytes) (force : Option Bool)
     (only256 onlyFat : Option Bool) (patlimit avx2 ssse3 : Bool) : Option PackedSearcher :=
-  -- the builder goes inert at the 129th pattern or at an empty pattern
-  if pats.length > 128 || pats.any (·.isEmpty) || pats.isEmpty then none
+  -- the builder goes inert when a pattern is added beyond the limit, or at an empty pattern
+  if pats.length > k.patternLimit || pats.any (·.isEmpty) || pats.isEmpty then none
   else
     match force with
     | some false => some (PackedSearcher.new kind pats none)
     | _ =>
       let minLen := (pats.map List.length).foldl min 18446744073709551615
-      match teddyChoice only256 onlyFat patlimit pats.length minLen avx2 ssse3 with
+      match teddyChoice k only256 onlyFat patlimit pats.length minLen avx2 ssse3 with
       | none => none
       | some v => some (PackedSearcher.new kind pats (some v))
 
